@@ -139,3 +139,25 @@ def sha256_file(path):
     with open(path, 'rb') as f:
         h.update(f.read())
     return h.hexdigest()
+
+
+TEMPLATE_HEAD = r'template\s*<\s*typename T,\s*typename = typename std::enable_if<[^;{}]*?>::type>\s*'
+
+
+def expand_member_template(text, name, types, what=''):
+    """CBMC has no member function templates: `template <typename T, typename = enable_if..> R name(..T..) {..}`
+    is instantiated textually, once per type in `types` (an overload set on the T parameter).
+    types == [] deletes the member template (it is then not under contract)."""
+    rx = re.compile(TEMPLATE_HEAD + r'[\w:<> ]*?\b' + re.escape(name) + r'\(')
+    ms = list(rx.finditer(text))
+    if len(ms) != 1:
+        raise ExtractError('member template %s: %d matches %s' % (name, len(ms), what))
+    m = ms[0]
+    ob = find_body_open(text, m.start() + len(re.match(TEMPLATE_HEAD, text[m.start():]).group(0)))
+    cb = match_brace(text, ob)
+    head_len = len(re.match(TEMPLATE_HEAD, text[m.start():]).group(0))
+    body = text[m.start() + head_len:cb + 1]
+    out = []
+    for ty in types:
+        out.append('/* instantiated textually for T = %s */ ' % ty + re.sub(r'\bT\b', ty, body))
+    return text[:m.start()] + '\n  '.join(out) + text[cb + 1:]
